@@ -313,3 +313,117 @@ Theorem C17_literal_tables_from_source :
   with_names sign_rust sign_tbl = src_lit_Sign.
 Proof. exact literal_tables_from_source. Qed.
 Print Assumptions C17_literal_tables_from_source.
+
+(* TIE TO THE SOURCE CODE: THE ELEMENT SCHEDULES.  gen/ParseOrderSrc.v is regenerated on every run from every
+   `impl Parse for X` of genapi/src/parser/*.rs (tools/translate_parseorder.py): for each impl the cursor operations in
+   program order - node.parse (required next child), node.parse_if(TAG) [.or_else ..] (optional child, with the
+   .unwrap_or.. default), node.parse_while(TAG) / while-let loops (repeated), node.next_if(TAG), attribute reads,
+   post-processing of locals - with the local each result is bound to and the struct literal the impl ends with
+   (field := local), element parser types taken from the struct definitions, tags = the constants of gen/ElemNames.v.
+   The model encodes its schedules as functions, so the tie is by interpretation (model/PoOps.v, proofs/P_C17s.v):
+   [run_body E targ attrs b] runs a translated body over the model's cursor primitives, Parse impls of other types are
+   looked up in the environment E; [model_env fresh] answers with the model's parsers followed by the injection of their
+   results into untyped values (a record = its fields BY RUST FIELD NAME, an enum constructor = the Rust variant name;
+   nodes handed to store_node on the way = a log); [closed key karg targ b]: for EVERY fresh-id counter, attribute list
+   and child list, running b is what the environment answers for key<karg>.
+   Vocabulary: [instances] (name of the schedule in the generated file, key, type argument, type parameter): the 37
+   translated impls, the generic ones (NamedValue, ValueKind, PValue, PIndex, ValueIndexed) at every type argument the
+   node structs use; [dflts_src b] the (local, default) pairs of a schedule; [model_min impl children] the model's
+   result, injected, on a declaration with the required children only ([min_docs]); [run_on fresh b x] the translated
+   body b on the attributes and children of element x. *)
+From Cam Require Import PoOps ParseOrderSrc P_C17s.
+
+(* every covered Parse impl: the translated schedule, interpreted, IS the model's parser - for every child list (the
+   loops are related by induction on the fuel of the model's own loop), every attribute list, every fresh-id counter;
+   the schedules of the generated file are all covered; what the translator does not cover is listed *)
+Theorem C17_schedules_from_source :
+  Forall instance_closed instances /\
+  (covers_all = true /\ List.length src_po_all = 37%nat /\ src_po_uncovered = ["GroupNode"; "Vec<NodeData>"]%string).
+Proof. exact (conj all_instances_closed schedules_covered). Qed.
+Print Assumptions C17_schedules_from_source.
+
+(* ... spelled out for the element base, the register base and the numeric / register node kinds *)
+Theorem C17_schedule_numeric_kinds_from_source :
+  closed "NodeAttributeBase" None None src_po_NodeAttributeBase /\
+  closed "NodeElementBase" None None src_po_NodeElementBase /\
+  closed "RegisterBase" None None src_po_RegisterBase /\
+  closed "IntegerNode" None None src_po_IntegerNode /\ closed "IntRegNode" None None src_po_IntRegNode /\
+  closed "MaskedIntRegNode" None None src_po_MaskedIntRegNode /\ closed "FloatNode" None None src_po_FloatNode /\
+  closed "FloatRegNode" None None src_po_FloatRegNode /\
+  closed "ValueKind" (Some TIntegerId) (Some TIntegerId) src_po_ValueKind /\
+  closed "ValueKind" (Some TFloatId) (Some TFloatId) src_po_ValueKind /\
+  closed "PIndex" (Some TIntegerId) (Some TIntegerId) src_po_PIndex /\
+  closed "ImmOrPNode" (Some TI64) None src_po_ImmOrPNode_i64 /\ closed "ImmOrPNode" (Some TF64) None src_po_ImmOrPNode_f64 /\
+  closed "ImmOrPNode" (Some TBool) None src_po_ImmOrPNode_bool /\ closed "BitMask" None None src_po_BitMask.
+Proof.
+  exact (conj cl_NodeAttributeBase (conj cl_NodeElementBase (conj cl_RegisterBase (conj cl_IntegerNode (conj cl_IntRegNode
+        (conj cl_MaskedIntRegNode (conj cl_FloatNode (conj cl_FloatRegNode (conj cl_ValueKind_IntegerId
+        (conj cl_ValueKind_FloatId (conj cl_PIndex_IntegerId (conj cl_ImmOrPNode_i64 (conj cl_ImmOrPNode_f64
+        (conj cl_ImmOrPNode_bool cl_BitMask)))))))))))))).
+Qed.
+Print Assumptions C17_schedule_numeric_kinds_from_source.
+
+(* every default the source applies to an absent optional element / attribute (.unwrap_or_default() resolved through the
+   `impl Default` blocks, .unwrap_or(X), .unwrap_or_else(..)) is the model's: an absent element with a default yields
+   the default whatever follows, and on a declaration with the required children only the model's result holds, under
+   each such name, exactly the source's default - for every schedule of the generated file that has a default *)
+Theorem C17_defaults_from_source :
+  (forall E targ attrs loc tags ty d c c',
+     alt tags (elem_sem E targ attrs ty) c = Ok (None, c') ->
+     step_sem E targ attrs loc (SOpt tags ty (DVal d)) c = Ok ((d, []), c')) /\
+  Forall defaults_agree min_docs /\ defaults_covered = true.
+Proof. exact (conj step_default_when_absent defaults_from_source). Qed.
+Print Assumptions C17_defaults_from_source.
+
+(* the property on the TRANSLATED schedules themselves: a well-formed declared element base / register base / Integer /
+   IntReg / MaskedIntReg / Float / FloatReg, rendered in schema order, is consumed completely by the translated
+   schedule, which yields exactly the normalised node (every declared property under its Rust field name, schema
+   defaults filled in) and stores exactly the embedded nodes *)
+Theorem C17_roundtrip_of_source : forall fresh,
+  (forall e k, wf_eb e -> hn eb_tags k ->
+     run_body (model_env fresh) None [] src_po_NodeElementBase (r_eb e k) = Ok ((inj_eb (n_eb e), []), k)) /\
+  (forall r k, wf_rb r -> hn rb_tags k ->
+     run_body (model_env fresh) None [] src_po_RegisterBase (r_rb r k)
+     = Ok ((inj_rb (n_rb r), map inj_nd (rb_nodes r)), k)) /\
+  (forall n, wf_integer n ->
+     run_on fresh src_po_IntegerNode (r_integer n) = Ok ((inj_integer (n_integer n), []), [])) /\
+  (forall n, wf_intreg n ->
+     run_on fresh src_po_IntRegNode (r_intreg n)
+     = Ok ((inj_intreg (n_intreg n), map inj_nd (rb_nodes (ir_rb n))), [])) /\
+  (forall n, wf_masked n ->
+     run_on fresh src_po_MaskedIntRegNode (r_masked n)
+     = Ok ((inj_masked (n_masked n), map inj_nd (rb_nodes (mr_rb n))), [])) /\
+  (forall n, wf_float n ->
+     run_on fresh src_po_FloatNode (r_float n) = Ok ((inj_float (n_float n), []), [])) /\
+  (forall n, wf_floatreg n ->
+     run_on fresh src_po_FloatRegNode (r_floatreg n)
+     = Ok ((inj_floatreg (n_floatreg n), map inj_nd (rb_nodes (fr_rb n))), [])).
+Proof. exact roundtrip_of_source. Qed.
+Print Assumptions C17_roundtrip_of_source.
+
+(* the tag each node impl asserts at its head (debug_assert_eq!(node.tag_name(), TAG)) is the tag under which the model's
+   dispatch runs that impl's parser; the impls that end in register_base.store_invalidators(..) are the register kinds *)
+Theorem C17_asserted_tags_of_source : forall fixed fresh attrs ch,
+  parse_leaf fixed fresh (tag_of "IntegerNode") attrs ch = on_ok (p_integer attrs ch) (fun n => pres1 fresh (NdInteger n)) /\
+  parse_leaf fixed fresh (tag_of "FloatNode") attrs ch = on_ok (p_float attrs ch) (fun n => pres1 fresh (NdFloat n)) /\
+  parse_leaf fixed fresh (tag_of "IntRegNode") attrs ch =
+    on_ok (p_intreg attrs ch)
+      (fun n => mkPres (snd n) [NdIntReg (fst n)] (reg_invs (ir_rb (fst n)) (a_name (ir_attr (fst n)))) fresh) /\
+  tag_of "StructEntryNode" = T_StructEntry /\ tag_of "EnumEntryNode" = T_EnumEntry /\
+  src_po_invalidators = ["FloatRegNode"; "IntRegNode"; "MaskedIntRegNode"; "RegisterNode"; "StringRegNode"]%string.
+Proof. exact asserted_tags_of_source. Qed.
+Print Assumptions C17_asserted_tags_of_source.
+
+(* computed: <Integer Name="N"><ToolTip>t</ToolTip><Value>0x10</Value><pMax>M</pMax><Representation>HexNumber
+   </Representation><pSelected>A</pSelected><pSelected>B</pSelected></Integer> through the translated schedule *)
+Theorem C17_schedule_example :
+  match run_body (model_env 0) None min_attrs src_po_IntegerNode example_children with
+  | Ok ((v, lg), rest) =>
+      (field "value_kind" v, field "min" v, field "max" v, field "inc" v, field "p_selected" v,
+       field "tooltip" (field "elem_base" v), field "visibility" (field "elem_base" v), lg, rest)
+  | _ => (VNone, VNone, VNone, VNone, VNone, VNone, VNone, [], [])
+  end
+  = (VCtor "Value" [VInt 16], VCtor "Imm" [VInt I64_MIN], VCtor "PNode" [VStr [77]], VCtor "Imm" [VInt 1],
+     VList [VStr [65]; VStr [66]], VSome (VStr [116]), VEnum (s2l "Beginner"), [], []).
+Proof. exact schedule_example. Qed.
+Print Assumptions C17_schedule_example.
